@@ -177,3 +177,59 @@ def well_assembled(U):
     U.ensures("exactly the assembled instructions, in order, with their bytes", got == parts,
               got=[g.hex() for g in got], want=[p.hex() for p in parts])
     U.ensures("consumes exactly the declared code size", sum(i.get_length() for i in o.value) == len(code))
+
+
+# ---- DCode.get_instructions: the caching wrapper around the sweep (callee replaced by its contract: a finite stream of instruction
+# objects that ends normally or with InvalidInstruction).  Whatever the cache does, every disassembly of the same code object must
+# report what the sweep reports: the same instructions, and the same rejection of invalid code.
+
+
+class _StubSweep:
+    def __init__(self, items, fail_cls):
+        self.items, self.fail_cls, self.calls = items, fail_cls, []
+
+    def get_instructions(self, cm, size, insn, idx):
+        self.calls.append((cm, size, insn, idx))
+        for it in self.items:
+            yield it
+        if self.fail_cls is not None:
+            raise self.fail_cls("invalid instruction after %d valid ones" % len(self.items))
+
+
+@unit("C02", covers=[(DEX, "DCode.get_instructions"), (DEX, "DCode.__init__"), (DEX, "DCode.get_ins_off"), (DEX, "DCode.off_to_pos")],
+      params=[{"k": k, "fails": f} for k in (0, 1, 3) for f in (False, True)], samples=20,
+      note="sweep replaced by its contract (yields k instruction objects, then ends or raises InvalidInstruction); three "
+           "successive disassemblies of the same DCode, interleaved with an offset lookup")
+def dcode_wrapper(U, k, fails):
+    m = U.mod(DEX)
+    items = [_L(2 * U.int("l%d" % i, 1, 5)) for i in range(k)]
+    sweep = _StubSweep(items, m.InvalidInstruction if fails else None)
+    U.substitute(m, "LinearSweepAlgorithm", sweep, "contract stub: finite instruction stream, optionally ending in InvalidInstruction")
+    cmo = object()
+    buf = bytes(16)
+    dc = m.DCode(cmo, 0x100, 8, buf)
+    for attempt in range(3):
+        o = U.call(lambda: list(dc.get_instructions()))
+        if fails:
+            U.ensures("disassembly %d of invalid code raises InvalidInstruction (a partial result is never presented as the code)" % attempt,
+                      o.raised(m.InvalidInstruction), got=repr(o.value if o.ok else o.exc)[:120])
+        else:
+            U.ensures("disassembly %d yields exactly the sweep's instructions in order" % attempt,
+                      o.ok and len(o.value) == k and all(a is b for a, b in zip(o.value, items)), got=repr(o.exc))
+        if attempt == 0:
+            U.ensures("the sweep is given the code object's class manager, declared size, buffer and start index",
+                      len(sweep.calls) >= 1 and sweep.calls[0][0] is cmo and sweep.calls[0][1] == 8 and sweep.calls[0][2] is buf
+                      and sweep.calls[0][3] == 0)
+            q = U.call(dc.get_ins_off, 0)
+            if fails:
+                U.ensures("offset lookup in invalid code raises as well", q.raised(m.InvalidInstruction), got=repr(q.value if q.ok else q.exc)[:80])
+            else:
+                U.ensures("offset 0 is the first instruction (None for empty code)", q.ok and (q.value is items[0] if k else q.value is None))
+
+
+class _L:
+    def __init__(self, n):
+        self.n = n
+
+    def get_length(self):
+        return self.n
